@@ -20,37 +20,44 @@
  ***************************************************************************)
 EXTENDS Integers, Sequences, FiniteSets, TLC, Json
 
-CONSTANTS DepSets,     \* subset of {"ax", "axay", "aparam", "axcx", "abx", "abxaby", "abxcx"}
+CONSTANTS DepSets,     \* subset of {"ax", "axay", "aparam", "axcx", "axcy", "abx", "abxaby", "abxcx", "azabx"}
           Leaves, Mids, MaxOps, RecordHist
 
-VARIABLES deps, ta, tc, midb, leaf, nops, hist
-vars == <<deps, ta, tc, midb, leaf, nops, hist>>
+VARIABLES deps, ta, tc, midb, leaf, nops, hist,
+          midz      \* an integer parameter z of the Mid objects ('a.z': a dependency that ends one level above 'a.b.x')
+vars == <<deps, ta, tc, midb, leaf, nops, hist, midz>>
 
-Deep(d) == d \in {"abx", "abxaby", "abxcx"}
+Deep(d) == d \in {"abx", "abxaby", "abxcx", "azabx"}
+UsesC(d) == d \in {"axcx", "abxcx", "axcy"}
 \* the dependency specs of a configuration
 Specs(d) == CASE d = "ax" -> {"a.x"} [] d = "axay" -> {"a.x", "a.y"} [] d = "aparam" -> {"a.x", "a.y"}
               [] d = "axcx" -> {"a.x", "c.x"} [] d = "abx" -> {"a.b.x"} [] d = "abxaby" -> {"a.b.x", "a.b.y"}
               [] d = "abxcx" -> {"a.b.x", "c.x"}
+              [] d = "axcy" -> {"a.x", "c.y"}          \* different leaf names under different roots
+              [] d = "azabx" -> {"a.z", "a.b.x"}       \* dependencies of different depth through the same sub-object
 
 Unres == -1
 \* value reached through the current path of a spec (Unres if the path does not resolve)
 LeafOf(a, c, mb, sp) ==
   CASE sp \in {"a.x", "a.y"} -> a
-    [] sp = "c.x" -> c
+    [] sp \in {"c.x", "c.y"} -> c
     [] sp \in {"a.b.x", "a.b.y"} -> IF a = 0 THEN 0 ELSE mb[a]
-Field(sp) == IF sp \in {"a.y", "a.b.y"} THEN "y" ELSE "x"
-PathVal(a, c, mb, lf, sp) ==
-  LET l == LeafOf(a, c, mb, sp) IN IF l = 0 THEN Unres ELSE lf[l][Field(sp)]
+Field(sp) == IF sp \in {"a.y", "a.b.y", "c.y"} THEN "y" ELSE "x"
+PathValZ(a, c, mb, lf, mz, sp) ==
+  IF sp = "a.z" THEN (IF a = 0 THEN Unres ELSE mz[a])
+  ELSE LET l == LeafOf(a, c, mb, sp) IN IF l = 0 THEN Unres ELSE lf[l][Field(sp)]
+PathVal(a, c, mb, lf, sp) == PathValZ(a, c, mb, lf, midz, sp)
 
 \* objects on some current path (the parent may watch these)
 OnPath(a, c, mb) ==
   (IF a # 0 THEN {<<IF Deep(deps) THEN "mid" ELSE "leaf", a>>} ELSE {})
   \cup (IF Deep(deps) /\ a # 0 /\ mb[a] # 0 THEN {<<"leaf", mb[a]>>} ELSE {})
-  \cup (IF deps \in {"axcx", "abxcx"} /\ c # 0 THEN {<<"leaf", c>>} ELSE {})
+  \cup (IF UsesC(deps) /\ c # 0 THEN {<<"leaf", c>>} ELSE {})
 
 Init == /\ deps \in DepSets
         /\ ta \in (IF Deep(deps) THEN Mids ELSE Leaves) \cup {0}
-        /\ tc \in (IF deps \in {"axcx", "abxcx"} THEN Leaves \cup {0} ELSE {0})
+        /\ tc \in (IF UsesC(deps) THEN Leaves \cup {0} ELSE {0})
+        /\ midz = [m \in Mids |-> 0]
         /\ midb \in [Mids -> Leaves \cup {0}]
         /\ (~Deep(deps) => midb = [m \in Mids |-> 0])
         /\ leaf \in [Leaves -> [x : {0, 1}, y : {0}]]
@@ -58,12 +65,12 @@ Init == /\ deps \in DepSets
 
 \* the chain of objects a spec passes through
 Chain(a, c, mb, sp) ==
-  CASE sp \in {"a.x", "a.y"} -> <<a>>
-    [] sp = "c.x" -> <<c>>
+  CASE sp \in {"a.x", "a.y", "a.z"} -> <<a>>
+    [] sp \in {"c.x", "c.y"} -> <<c>>
     [] sp \in {"a.b.x", "a.b.y"} -> <<a, IF a = 0 THEN 0 ELSE mb[a]>>
-Verdict(a2, c2, mb2, lf2) ==
+VerdictZ(a2, c2, mb2, lf2, mz2) ==
   LET st == [sp \in Specs(deps) |->
-               LET b == PathVal(ta, tc, midb, leaf, sp) n == PathVal(a2, c2, mb2, lf2, sp) IN
+               LET b == PathVal(ta, tc, midb, leaf, sp) n == PathValZ(a2, c2, mb2, lf2, mz2, sp) IN
                \* not resolving before nor after: the property makes no claim if the operation
                \* rearranged this path; an operation elsewhere must not fire the method
                IF b = Unres /\ n = Unres
@@ -72,6 +79,7 @@ Verdict(a2, c2, mb2, lf2) ==
                ELSE IF b # n THEN "changed" ELSE "same"]
   IN IF \E sp \in Specs(deps) : st[sp] = "changed" THEN "once"
      ELSE IF \E sp \in Specs(deps) : st[sp] = "free" THEN "free" ELSE "never"
+Verdict(a2, c2, mb2, lf2) == VerdictZ(a2, c2, mb2, lf2, midz)
 
 \* (two deviations of the implementation found with this module -- only the first of several
 \*  leaves under one sub-object was compared on replacement; replacing one sub-object dropped the
@@ -79,37 +87,46 @@ Verdict(a2, c2, mb2, lf2) ==
 TagSecondLeaf(a2, c2, mb2, lf2) == FALSE
 TagOtherRoot == FALSE
 
+InitRec == [act |-> [name |-> "init"], deps |-> deps, ta |-> ta, tc |-> tc, midb |-> midb, leaf |-> leaf, midz |-> midz,
+            onpath |-> OnPath(ta, tc, midb), kf |-> {}]
 Rec(name, args, a2, c2, mb2, lf2, tags) ==
   hist' = IF RecordHist
-          THEN Append(IF hist = <<>> THEN <<[act |-> [name |-> "init"], deps |-> deps, ta |-> ta, tc |-> tc, midb |-> midb, leaf |-> leaf,
-                                            onpath |-> OnPath(ta, tc, midb), kf |-> {}]>> ELSE hist,
+          THEN Append(IF hist = <<>> THEN <<InitRec>> ELSE hist,
                       [act |-> [name |-> name] @@ args, verdict |-> Verdict(a2, c2, mb2, lf2),
                        onpath |-> LET d == deps IN
                                   (IF a2 # 0 THEN {<<IF Deep(d) THEN "mid" ELSE "leaf", a2>>} ELSE {})
                                   \cup (IF Deep(d) /\ a2 # 0 /\ mb2[a2] # 0 THEN {<<"leaf", mb2[a2]>>} ELSE {})
-                                  \cup (IF d \in {"axcx", "abxcx"} /\ c2 # 0 THEN {<<"leaf", c2>>} ELSE {}),
+                                  \cup (IF UsesC(d) /\ c2 # 0 THEN {<<"leaf", c2>>} ELSE {}),
                        kf |-> tags])
           ELSE hist
 Step == nops < MaxOps /\ nops' = nops + 1
 
 SetA(v) == /\ Step /\ v # ta /\ v \in (IF Deep(deps) THEN Mids ELSE Leaves) \cup {0}
-           /\ ta' = v /\ UNCHANGED <<deps, tc, midb, leaf>>
+           /\ ta' = v /\ UNCHANGED <<deps, tc, midb, leaf, midz>>
            /\ Rec("seta", [v |-> v], v, tc, midb, leaf,
                   (IF TagSecondLeaf(v, tc, midb, leaf) THEN {"KF_SecondLeaf"} ELSE {}) \cup (IF TagOtherRoot THEN {"KF_OtherRoot"} ELSE {}))
-SetC(v) == /\ Step /\ deps \in {"axcx", "abxcx"} /\ v # tc /\ v \in Leaves \cup {0}
-           /\ tc' = v /\ UNCHANGED <<deps, ta, midb, leaf>>
+SetC(v) == /\ Step /\ UsesC(deps) /\ v # tc /\ v \in Leaves \cup {0}
+           /\ tc' = v /\ UNCHANGED <<deps, ta, midb, leaf, midz>>
            /\ Rec("setc", [v |-> v], ta, v, midb, leaf, IF TagOtherRoot THEN {"KF_OtherRoot"} ELSE {})
 SetB(m, v) == /\ Step /\ Deep(deps) /\ m \in Mids /\ v \in Leaves \cup {0} /\ v # midb[m]
-              /\ midb' = [midb EXCEPT ![m] = v] /\ UNCHANGED <<deps, ta, tc, leaf>>
+              /\ midb' = [midb EXCEPT ![m] = v] /\ UNCHANGED <<deps, ta, tc, leaf, midz>>
               /\ Rec("setb", [m |-> m, v |-> v], ta, tc, midb', leaf,
                      IF TagSecondLeaf(ta, tc, midb', leaf) THEN {"KF_SecondLeaf"} ELSE {})
 SetLeaf(l, f, v) == /\ Step /\ l \in Leaves /\ leaf[l][f] # v
-                    /\ leaf' = [leaf EXCEPT ![l][f] = v] /\ UNCHANGED <<deps, ta, tc, midb>>
+                    /\ leaf' = [leaf EXCEPT ![l][f] = v] /\ UNCHANGED <<deps, ta, tc, midb, midz>>
                     /\ Rec("setleaf", [l |-> l, f |-> f, v |-> v], ta, tc, midb, leaf', {})
+\* an assignment to the integer parameter z of a Mid object (attached or not)
+SetZ(m, v) == /\ Step /\ deps = "azabx" /\ m \in Mids /\ midz[m] # v
+              /\ midz' = [midz EXCEPT ![m] = v] /\ UNCHANGED <<deps, ta, tc, midb, leaf>>
+              /\ hist' = IF RecordHist
+                         THEN Append(IF hist = <<>> THEN <<InitRec>> ELSE hist, [act |-> [name |-> "setz", m |-> m, v |-> v], verdict |-> VerdictZ(ta, tc, midb, leaf, midz'),
+                                            onpath |-> OnPath(ta, tc, midb), kf |-> {}])
+                         ELSE hist
 
 Next == \/ \E v \in Leaves \cup Mids \cup {0} : SetA(v) \/ SetC(v)
         \/ \E m \in Mids, v \in Leaves \cup {0} : SetB(m, v)
         \/ \E l \in Leaves, f \in {"x", "y"}, v \in {0, 1} : SetLeaf(l, f, v)
+        \/ \E m \in Mids, v \in {0, 1} : SetZ(m, v)
 Spec == Init /\ [][Next]_vars
 
 \* ---- properties on the specification --------------------------------------------------------
